@@ -7,6 +7,7 @@ func init() {
 	vHarnesses["H_C12_overlap"] = H_C12_overlap
 	vHarnesses["H_C12_malformed"] = H_C12_malformed
 	vHarnesses["H_C12_overlap_deep"] = H_C12_overlap_deep
+	vHarnesses["H_C12_blank_keys"] = H_C12_blank_keys
 }
 
 type vStored struct {
@@ -221,4 +222,27 @@ func H_C12_malformed() {
 	vAssert(err != nil, "newmap: a malformed pair is rejected with an error")
 	vAssertUnchangedSince(mark, "newmap: the receiver is never modified (error return)")
 	vCover("malformed")
+}
+
+// keys and new names with leading or trailing blanks are taken literally
+func H_C12_blank_keys() {
+	k1 := vNondetString(1, 2, "a ")
+	k2 := vNondetString(1, 2, "a ")
+	vAssume(k1 != k2)
+	m := map[string]interface{}{k1: "1", k2: "2"}
+	nn := vNondetString(1, 2, "n ")
+	old := []string{k1, k2, "a"}[vChoose(3)]
+	mark := vMark(m)
+	res, err := Map(m).NewMap(old + ":" + nn)
+	vAssert(err == nil, "blank keys: a well-formed pair is accepted")
+	vAssertUnchangedSince(mark, "blank keys: the receiver is never modified")
+	want, has := m[old]
+	if has {
+		got, ok := res[nn]
+		vAssert(ok && vSame(got, want) && len(res) == 1, "blank keys: the value of exactly the old key is stored under exactly the new name")
+		vCover("found")
+	} else {
+		vAssert(len(res) == 0, "blank keys: an old key that does not exist is skipped")
+		vCover("skipped")
+	}
 }
